@@ -343,3 +343,9 @@ package plugin
 //@   ensures E3 [C02]: result1 != nil ==> result0 == nil
 //@   opt safety [C01]
 //@   opt frame [C01]
+
+// Prepare sets the OS-facing function fields; configuration fields are untouched.
+//@ iface plugin.Plugin.Prepare(self, ifi) (err)
+//@   requires P1: pluginCfgOK(self)
+//@   assigns heap(plugin.Prefix) at ite(isType(self, "*plugin.Prefix"), self.val, 0), heap(plugin.Route) at ite(isType(self, "*plugin.Route"), self.val, 0), heap(plugin.RDNSS) at ite(isType(self, "*plugin.RDNSS"), self.val, 0), heap(plugin.LLA) at ite(isType(self, "*plugin.LLA"), self.val, 0)
+//@   ensures E1: pluginCfgOK(self)
